@@ -860,6 +860,44 @@ func runFacts(repo, outdir string) error {
 		}
 	}
 
+	// ---------- fs ----------
+	{
+		fsP, err := loadPkg(filepath.Join(repo, "fs"))
+		if err != nil {
+			return err
+		}
+		lf := newLean("Fs.lean", "fs/file.go")
+		sy, err := fsP.fn("File", "Sync")
+		if err != nil {
+			return err
+		}
+		ssrc := fsP.src(sy.Body)
+		iFile := strings.Index(ssrc, "f.File.Sync()")
+		iDir := strings.Index(ssrc, "syncDir(")
+		// first statement that writes the `new` flag
+		iFlag := -1
+		for _, w := range []string{"atomic.SwapUint32(&f.new", "atomic.CompareAndSwapUint32(&f.new", "atomic.StoreUint32(&f.new", "atomic.AddUint32(&f.new", "f.new ="} {
+			if i := strings.Index(ssrc, w); i >= 0 && (iFlag < 0 || i < iFlag) {
+				iFlag = i
+			}
+		}
+		if iFile < 0 || iDir < 0 || iFlag < 0 {
+			return fmt.Errorf("fs.File.Sync: file fsync, directory fsync or the write of the new flag not found")
+		}
+		pol := 1
+		switch {
+		case iFlag < iFile:
+			pol = 0
+		case iFlag > iDir && strings.Contains(ssrc[iDir:iFlag], "return"):
+			// the error of syncDir is returned before the flag is written
+			pol = 2
+		}
+		lf.raw(fmt.Sprintf("/-- where `File.Sync` clears the `new` flag: 0 = before the file's fsync, 1 = after it but before the directory fsync is known to have succeeded, 2 = only after the directory fsync succeeded -/\ndef fileSyncFlagPolicy : Nat := %d\n\n", pol))
+		if err := lf.finish(outdir); err != nil {
+			return err
+		}
+	}
+
 	// ---------- Verifier ----------
 	lv := newLean("Verifier.lean", "verifier/verifier.go, verifier/store.go")
 	ck, err := verP.fn("", "checksumLog")
